@@ -9,6 +9,10 @@ from harness import impl_operands as O
 
 DECOY_TWINS = {"quick": 0.02, "thorough": 0.05}     # engine: decoy twins (harness/decoy.py)
 ID = "C10"
+# the codon objects are process-wide singletons: their answers must not depend on what was constructed (or refused)
+# before - C15's codon histories (every construction made twice, registry-saturating prefixes) are C10's subject too
+BORROW = [dict(prop="c15", max=700, ops={"hist", "fhist"},
+               why="C10: answers of Codon objects after other spellings were constructed / refused, registry saturation")]
 LEAN_MODULE = "BioCantor.Props.C10"
 DESIGN_REF = "4/C10"
 DRIVER = "drivers/C10.lean"
